@@ -198,6 +198,12 @@ func c10Perform(t *rapid.T, m *c10Mon, scope int, b Beh, msg string) {
 		m.reg(t, scope, 1, func() { t.Errorf("nonfatal in cleanup: %s", msg) })
 		m.useCtx(t, scope, 1)
 		t.Skip("skip " + msg)
+	case BRcpNilCleanup:
+		m.reg(t, scope, 1, nil)
+		m.reg(t, scope, 2, nil)
+		t.Cleanup(nil) // e.g. an optional hook that was never set: not a function to run, and no reason to forget the older ones
+		m.reg(t, scope, 3, nil)
+		m.useCtx(t, scope, 1)
 	case BRcpTwoPanickingCleanups:
 		m.reg(t, scope, 1, nil)
 		m.reg(t, scope, 2, nil)
@@ -256,7 +262,7 @@ func c10Perform(t *rapid.T, m *c10Mon, scope int, b Beh, msg string) {
 	}
 }
 
-var c10Alpha = []Beh{BRcpNone, BRcp1, BRcp3, BRcpNested, BRcpPanicMid, BRcpErrorfMid, BRcpCtxInCleanup, BRcpThenFatal, BRcpThenSkip, BRcpThenPanic, BRcpThenErrorf, BRcpCustom, BRcpCustomSkip, BRcpGoroutineCleanup, BRcpCustomFatal, BRcpCustomPanic, BRcpCleanupSkips, BRcpSkipWithCleanupErrorf, BRcpTwoPanickingCleanups, BRcpFatalAndSkipCleanups, BRcpThreeAbnormalCleanups}
+var c10Alpha = []Beh{BRcpNone, BRcp1, BRcp3, BRcpNested, BRcpPanicMid, BRcpErrorfMid, BRcpCtxInCleanup, BRcpThenFatal, BRcpThenSkip, BRcpThenPanic, BRcpThenErrorf, BRcpCustom, BRcpCustomSkip, BRcpGoroutineCleanup, BRcpCustomFatal, BRcpCustomPanic, BRcpCleanupSkips, BRcpSkipWithCleanupErrorf, BRcpTwoPanickingCleanups, BRcpFatalAndSkipCleanups, BRcpThreeAbnormalCleanups, BRcpNilCleanup}
 
 func c10Prog(m func() *c10Mon, T int16) *LazyProgram {
 	return &LazyProgram{
